@@ -198,7 +198,7 @@ var UtilClasses = []string{"zero", "belowL", "eqL-1", "eqL", "eqL+1", "midLU", "
 
 // drawTargetPods constructs a pod set for group g whose exact utilisation, given the
 // current untainted uncordoned API nodes, falls into a drawn class.
-func (w *World) drawTargetPods(rt *rapid.T, g int) (Action, string) {
+func (w *World) drawTargetPods(rt *rapid.T, g int, forceClass ...string) (Action, string) {
 	gs := &w.Cfg.Groups[g]
 	o := &gs.Opts
 	var untainted, all []string
@@ -209,7 +209,12 @@ func (w *World) drawTargetPods(rt *rapid.T, g int) (Action, string) {
 		}
 	}
 	U := int64(len(untainted))
-	class := rapid.SampledFrom(UtilClasses).Draw(rt, "utilClass")
+	class := ""
+	if len(forceClass) > 0 {
+		class = rapid.SampledFrom(forceClass).Draw(rt, "utilClass")
+	} else {
+		class = rapid.SampledFrom(UtilClasses).Draw(rt, "utilClass")
+	}
 	L, Up, S := int64(o.TaintLowerCapacityThresholdPercent), int64(o.TaintUpperCapacityThresholdPercent), int64(o.ScaleUpThresholdPercent)
 	pick := func(cap int64) int64 {
 		eq := func(T int64) int64 { return T * cap / 100 }
@@ -516,6 +521,39 @@ func (w *World) DrawAction(rt *rapid.T, p *Profile) (Action, string) {
 		}
 	case "restart":
 		return Action{Op: "restart"}, "restart"
+	case "forceBusy": // an operator force-taints a node that (still) runs a pod of the group
+		names := w.GroupNodeNames(g)
+		if len(names) > 0 {
+			n := rapid.SampledFrom(names).Draw(rt, "node")
+			via := "selector"
+			if w.Cfg.Groups[g].Opts.Name == controller.DefaultNodeGroup {
+				via = "none"
+			}
+			return Action{Op: "seq", Seq: []Action{
+				{Op: "addPods", Group: g, Pods: []PodSpec{{Group: g, Via: via, CPU: 100, Mem: 1_000_000, Node: n, BoundPending: rapid.Bool().Draw(rt, "boundPending")}}},
+				{Op: "taint", Node: n, Key: ref.ForceTaintKey, Val: fmt.Sprint(time.Now().Unix()), Effect: "NoSchedule"},
+			}}, "forceBusy"
+		}
+	case "storm": // several empty force-tainted nodes, possibly a refused termination, high utilisation, then a scan
+		names := w.GroupNodeNames(g)
+		if len(names) >= 2 {
+			k := rapid.IntRange(1, minInt(3, len(names)-1)).Draw(rt, "k")
+			seq := []Action{{Op: "drainAndForce", Group: g, Names: rapid.Permutation(names).Draw(rt, "nodes")[:k]}}
+			if rapid.Bool().Draw(rt, "refuseTerminate") {
+				seq = append(seq, Action{Op: "fault", Faults: []sim.Fault{{Kind: sim.ATerminateInASG, Nth: rapid.IntRange(0, k-1).Draw(rt, "nth")}}})
+			}
+			tp, _ := w.drawTargetPods(rt, g, "eqS+1", "aboveS", "aboveS", "farAboveS")
+			// the pods must not sit on the nodes that were just drained
+			for i := range tp.Pods {
+				for _, dn := range seq[0].Names {
+					if tp.Pods[i].Node == dn {
+						tp.Pods[i].Node = ""
+					}
+				}
+			}
+			seq = append(seq, tp, Action{Op: "scan", Flag: true})
+			return Action{Op: "seq", Seq: seq}, "storm"
+		}
 	case "setCreated":
 		if n, ok := needNode(); ok {
 			if rapid.IntRange(0, 2).Draw(rt, "zero") == 0 {
